@@ -363,7 +363,38 @@ pub fn generate(seed: u64, tier: &str, sink: &mut Sink) {
             head.extend_from_slice(ct);
             head.extend_from_slice(b"\r\n");
         }
-        head.extend_from_slice(format!("Content-Length: {}\r\n\r\n", body.len()).as_bytes());
+        // the text may travel content-coded and / or chunked: charset handling sits on top of whatever the layers
+        // below deliver (decompressed, de-chunked bytes), not on the bytes of the wire
+        let gz = force.is_none() && rng.chance(1, 5);
+        let chunked = force.is_none() && rng.chance(1, 5);
+        let text_bytes = body.clone();
+        let body: Vec<u8> = if gz {
+            use std::io::Write;
+            let mut e = flate2::write::GzEncoder::new(Vec::new(), flate2::Compression::new(rng.below(10) as u32));
+            e.write_all(&text_bytes).unwrap();
+            head.extend_from_slice(b"Content-Encoding: gzip\r\n");
+            e.finish().unwrap()
+        } else {
+            body
+        };
+        let body: Vec<u8> = if chunked {
+            head.extend_from_slice(b"Transfer-Encoding: chunked\r\n\r\n");
+            let mut w = vec![];
+            let mut i = 0;
+            while i < body.len() {
+                let k = rng.range(1, 40) as usize;
+                let piece = &body[i..(i + k).min(body.len())];
+                w.extend_from_slice(format!("{:x}\r\n", piece.len()).as_bytes());
+                w.extend_from_slice(piece);
+                w.extend_from_slice(b"\r\n");
+                i += k;
+            }
+            w.extend_from_slice(b"0\r\n\r\n");
+            w
+        } else {
+            head.extend_from_slice(format!("Content-Length: {}\r\n\r\n", body.len()).as_bytes());
+            body
+        };
         // --- segmentation of the body (multi-byte sequences split across reads)
         let mut segs = vec![Seg::Data(head.clone())];
         let seg_mode = rng.below(3);
@@ -391,7 +422,7 @@ pub fn generate(seed: u64, tier: &str, sink: &mut Sink) {
             if chosen != expect.name() {
                 return Err((format!("wrong-charset-{}", form), format!("Content-Type {:?} default {:?}: decoding with {}, statement gives {}", ct.as_ref().map(|c| String::from_utf8_lossy(c).to_string()), dflt.map(|d| d.name()), chosen, expect.name())));
             }
-            let (whole, _) = expect.decode_without_bom_handling(&body);
+            let (whole, _) = expect.decode_without_bom_handling(&text_bytes);
             // the mark of the very charset in use may be dropped from the text (U+FEFF at the start)
             let sans_bom = |w: &str| -> Option<String> { w.strip_prefix('\u{feff}').map(|x| x.to_string()) };
             let (got, what): (Result<String, String>, &str) = match call {
@@ -400,7 +431,7 @@ pub fn generate(seed: u64, tier: &str, sink: &mut Sink) {
                     let mut s = String::new();
                     let mut r = resp.text_reader();
                     // small reads: the streaming reader must not depend on them
-                    rbuf = if body.len() % 2 == 0 { 1 + (body.len() % 3) } else { 4 + (body.len() % 61) };
+                    rbuf = if text_bytes.len() % 2 == 0 { 1 + (text_bytes.len() % 3) } else { 4 + (text_bytes.len() % 61) };
                     if let Some((_, _, rb)) = &force {
                         rbuf = *rb;
                     }
@@ -418,7 +449,7 @@ pub fn generate(seed: u64, tier: &str, sink: &mut Sink) {
                 }
                 2 => {
                     let e2 = encoding_rs::KOI8_R;
-                    let want = e2.decode_without_bom_handling(&body).0.into_owned();
+                    let want = e2.decode_without_bom_handling(&text_bytes).0.into_owned();
                     let g = resp.text_with(e2).map_err(|e| format!("{:?}", e.kind()));
                     return match g {
                         Ok(t) if t == want || sans_bom(&want).as_deref() == Some(t.as_str()) => Ok((chosen.to_string(), "text_with".to_string())),
@@ -427,7 +458,7 @@ pub fn generate(seed: u64, tier: &str, sink: &mut Sink) {
                     };
                 }
                 _ => {
-                    let want = String::from_utf8_lossy(&body).into_owned();
+                    let want = String::from_utf8_lossy(&text_bytes).into_owned();
                     let g = resp.text_utf8().map_err(|e| format!("{:?}", e.kind()));
                     return match g {
                         Ok(t) if t == want => Ok((chosen.to_string(), "text_utf8".to_string())),
@@ -474,7 +505,7 @@ pub fn generate(seed: u64, tier: &str, sink: &mut Sink) {
             table
         );
         sink.push(Case {
-            tags: vec![format!("header={}", form), format!("default={}", dflt.map(|d| d.name()).unwrap_or("none")), format!("call={}", what), format!("seg={}", ["one", "1-byte", "random"][seg_mode as usize]), format!("charset={}", expect.name()), format!("bom={}", has_bom), format!("tiny-read-buffer={}", what == "text_reader" && rbuf > 0 && rbuf < 8)],
+            tags: vec![format!("header={}", form), format!("default={}", dflt.map(|d| d.name()).unwrap_or("none")), format!("call={}", what), format!("seg={}", ["one", "1-byte", "random"][seg_mode as usize]), format!("charset={}", expect.name()), format!("bom={}", has_bom), format!("content-coding={}", if gz { "gzip" } else { "none" }), format!("framing={}", if chunked { "chunked" } else { "length" }), format!("tiny-read-buffer={}", what == "text_reader" && rbuf > 0 && rbuf < 8)],
             op,
             impl_line: format!("cs={}", hex(impl_cs.as_bytes())),
             oracle: o.map(|_| ()),
